@@ -164,6 +164,8 @@ func init() {
 							raw := []byte(fmt.Sprintf("%x", lcg(L, 9))) // hex text: compressible ~2:1, stays above the threshold when compressed
 							data := refEncode(oenc, raw)
 							hdr := http.Header{"Content-Type": {ct}}
+							compress.VerifFreshRegistries()
+							compress.Reset([]config.CompressConfig{{Name: "lv1", Levels: map[string]uint{"gzip": 1, "br": 1}}})
 							resp, err := cache.NewHTTPResponse(200, hdr, oenc, data)
 							if err != nil {
 								c.Violation("store-once", "new-response-error", err.Error(), nil, nil, nil)
@@ -197,6 +199,8 @@ func init() {
 									}
 								}
 							}
+							storedG, storedB := env.H64(resp.GzipBody), env.H64(resp.BrBody)
+							compress.Reset([]config.CompressConfig{{Name: compress.BestCompression, Levels: map[string]uint{"gzip": 1, "br": 1}}, {Name: "lv1", Levels: map[string]uint{"gzip": 9, "br": 9}}})
 							for _, ae := range c13Clients {
 								_, r2 := hc.Get()
 								if r2 == nil {
@@ -214,12 +218,14 @@ func init() {
 									c.Violation("store-once", "body-altered", fmt.Sprintf("client %q enc %q err %v", ae, enc, derr), nil, kase, nil)
 								}
 								if compressible && enc != "" {
-									stored := r2.GzipBody
+									// "compressed once when stored, not again per request": every profile's levels were changed after
+									// storing (below); a hit that compressed again would now send bytes different from the stored ones
+									stored := storedG
 									if enc == "br" {
-										stored = r2.BrBody
+										stored = storedB
 									}
-									if len(body) == 0 || len(stored) == 0 || &body[0] != &stored[0] {
-										c.Violation("store-once", "recompressed-per-request", fmt.Sprintf("client %q got a %s body that is not the stored slice", ae, enc), nil, kase, nil)
+									if env.H64(body) != stored {
+										c.Violation("store-once", "recompressed-per-request", fmt.Sprintf("client %q got a %s body whose bytes differ from the variant stored when the entry became cacheable", ae, enc), nil, kase, nil)
 									}
 								}
 							}
